@@ -28,7 +28,7 @@ import (
 
 func init() {
 	Register(&Prop{
-		ID:    "C11",
+		ID:       "C11",
 		Chunk:    8,
 		Race:     true,
 		NeedsCLI: true,
